@@ -11,6 +11,22 @@ TB = ("Lean 4.33.0 kernel (+ leanchecker in the thorough tier); axioms propext/C
       "correspondence drivers (T-corr) are unverified programs. ")
 
 CHECKS = {
+    "C02": dict(
+        text=("Proof (Lean 4), for ALL type terms (aliases, definitions, lists, Kombinationen of any nesting, not a finite table): whenever "
+              "the model of the type checker's operator rules (DDP.Checker.admits, transcribed from VisitUnary/Binary/TernaryExpr) admits "
+              "an operator application with result type t, the model of the code generator's lowering table (DDP.Lowering.lowerTy over IR "
+              "types, transcribed from compiler.go) has a case whose instruction is well-typed and whose result IR type is toIr(t) — all 5 "
+              "unary, 29 binary and 3 ternary operators (accepted_lowers_unary / _binary_scalar / _index_slice / _ternary / _concat). The "
+              "concat theorem carries the exact side condition found by the proof attempt (operands that are a type definition of Text or "
+              "of a list) with a witness theorem of the mismatch. Tie: every operator and cast applied to every tuple of 19 operand "
+              "classes (12.5k cells): checker verdict and result type compared with the model in-process; every accepted cell compiled "
+              "by the real code generator + LLVM in up to seven value contexts (initialiser, Variable, assignment, argument, return, list "
+              "element, condition); lowering model compared with the compile outcome. Casts and contexts are decided by that exhaustive "
+              "enumeration only (no Lean model). Six defects found this way were repaired (fix: commits), three are recorded findings."),
+        note=TB + "User overloads and generics are outside the two models; multi-feature programs are sampled by other generators.",
+        technique="Lean 4 proof (checker table vs lowering table, all type terms) + exhaustive operator-cell correspondence through the real compiler",
+        ref="§5 C02",
+    ),
     "C06": dict(
         text=("Proof (Lean 4) over the REGENERATED comparison facts (translator re-extracts, on every run, the icmp predicates, operand "
               "order, subtraction constants and clamp skeleton that compiler.go / list_types.go emit) interpreted over BitVec 64: for all "
